@@ -398,22 +398,40 @@ def rule_pairing(repo):
     (r.ok if co and norm(co[0].value) == 'constraint_objs' else r.bad)(
         m, FN, 'top._dag.constraint_objs = constraint_objs', *([] if co and norm(co[0].value) == 'constraint_objs' else
                                                                ["constraint objects are not published", f.lineno]))
-    # (e) explicit RD/WR-U constraints: 2x2 orientation table
-    uadds = [c for c in ast.walk(f) if isinstance(c, ast.Call) and norm(c.func) == 'U_U.add']
-    ok = len(uadds) == 2
+    # (e) explicit RD/WR-U constraints: orientation decided by abstract evaluation of the innermost body over sign in {1,-1}
+    inner = [lp for lp in ast.walk(f) if isinstance(lp, ast.For) and norm(lp.iter).startswith('equal_blks[')]
+    ok = len(inner) == 1
+    detail = ''
     if ok:
-        table = {}
-        for c in uadds:
-            g = [g for g in guards_of(c) if g.kind == 'if' and 'sign' in norm(g.test)]
-            if len(g) != 1:
-                ok = False
-                break
-            pos = (norm(g[0].test) == 'sign == 1') == g[0].polarity if norm(g[0].test) in ('sign == 1',) else \
-                ((norm(g[0].test) == 'sign == -1') != g[0].polarity if norm(g[0].test) == 'sign == -1' else None)
-            table[pos] = [norm(e) for e in c.args[0].elts]
-        ok = ok and table.get(True) == ['eq_blk', 'co_blk'] and table.get(False) == ['co_blk', 'eq_blk']
+        lp = inner[0]
+        eqv = norm(lp.target)
+        outer2 = enclosing(lp, (ast.For,))
+        names = [norm(e) for e in outer2.target.elts] if outer2 is not None and isinstance(outer2.target, ast.Tuple) else []
+        ok = len(names) == 2
+        if ok:
+            signv, cov = names
+            for sign in (1, -1):
+                rec = {'U_U': [], 'cobj': []}
+
+                def hook(ev, call, rec=rec):
+                    fn = call.func
+                    if isinstance(fn, ast.Attribute) and fn.attr == 'add':
+                        if norm(fn.value) == 'U_U':
+                            rec['U_U'].append(ev.ev(call.args[0]))
+                            return None
+                        if isinstance(fn.value, ast.Subscript) and norm(fn.value.value) == 'constraint_objs':
+                            rec['cobj'].append((ev.ev(fn.value.slice), ev.ev(call.args[0])))
+                            return None
+                    return NotImplemented
+                ev = Evaluator({signv: sign, cov: 'CO', eqv: 'EQ', 'obj': 'OBJ'}, arith=True, call_hook=hook)
+                ev._block(lp.body)
+                r.evaluations += 1
+                want = ('EQ', 'CO') if sign == 1 else ('CO', 'EQ')
+                if rec['U_U'] != [want] or rec['cobj'] != [(want, 'OBJ')]:
+                    ok = False
+                    detail = f"sign={sign}: edges {rec['U_U']}, recorded objects {rec['cobj']}, expected {want}"
     (r.ok if ok else r.bad)(m, FN, "RD/WR(x) < U  =>  (block accessing x, U);   RD/WR(x) > U  =>  (U, block accessing x)",
-                            *([] if ok else ["explicit RD/WR-U constraints are oriented the wrong way round", f.lineno]))
+                            *([] if ok else ["explicit RD/WR-U constraints are oriented the wrong way round or not recorded under the same key: " + detail, f.lineno]))
     sel = [s for s in ast.walk(f) if isinstance(s, ast.If) and norm(s.test) == "typ == 'rd'"]
     ok = len(sel) == 1 and {norm(x) for x in sel[0].body} == {'constraints = RD_U', 'equal_blks = read_upblks'} and \
         {norm(x) for x in sel[0].orelse} == {'constraints = WR_U', 'equal_blks = write_upblks'}
@@ -623,6 +641,15 @@ def kahn_check(r, m, FN, func, level, out_pred, require_complete):
         for t in ast.walk(s.targets[0]):
             if isinstance(t, ast.Name):
                 names.add(t.id)
+    # aliases derived from the extracted vertex inside the loop (u_blk = id_v[u])
+    changed = True
+    while changed:
+        changed = False
+        for s in ast.walk(wl):
+            if isinstance(s, ast.Assign) and len(s.targets) == 1 and isinstance(s.targets[0], ast.Name) and s.targets[0].id not in names \
+                    and names & {x.id for x in ast.walk(s.value) if isinstance(x, ast.Name)} and not extracts(s):
+                names.add(s.targets[0].id)
+                changed = True
     from rules.c07 import _covers_all
     cons = f"while {norm(wl.test)}: take one ready vertex, emit it, relax its successors"
     if uvar is None:
@@ -832,14 +859,34 @@ def rule_greenlet(repo):
         r.ok(m, FN, cons)
     vl = [s for s in f.body if isinstance(s, ast.For) and norm(s.iter) == 'all_upblks']
     ok = len(vl) == 1
+    detail = ''
     if ok:
-        b = vl[0].body
         blk = norm(vl[0].target)
-        ok = len(b) == 1 and isinstance(b[0], ast.If) and norm(b[0].test) == f"{blk} in greenlet_upblks" and \
-            any(norm(s) == f"new_upblks.add({blk})" for s in b[0].orelse) and \
-            any(norm(s) == f"blk_greenlet_mapping[{blk}] = wrapped" for s in b[0].body) and any(norm(s) == 'new_upblks.add(wrapped)' for s in b[0].body)
+        for member in (False, True):
+            rec = {'verts': [], 'map': {}}
+
+            def hook(ev, call, rec=rec):
+                if norm(call.func) == 'wrap_greenlet' and len(call.args) == 1:
+                    return 'W' + str(ev.ev(call.args[0]))
+                if norm(call.func) == 'new_upblks.add':
+                    rec['verts'].append(ev.ev(call.args[0]))
+                    return None
+                return NotImplemented
+
+            def store(ev, tgt, val, rec=rec):
+                if isinstance(tgt, ast.Subscript) and norm(tgt.value) == 'blk_greenlet_mapping':
+                    rec['map'][ev.ev(tgt.slice)] = val
+                    return True
+                return False
+            ev = Evaluator({blk: 'B', 'greenlet_upblks': ('B',) if member else ()}, arith=False, call_hook=hook, store_hook=store)
+            ev._block(vl[0].body)
+            r.evaluations += 1
+            want_v, want_m = (['WB'], {'B': 'WB'}) if member else (['B'], {})
+            if rec['verts'] != want_v or rec['map'] != want_m:
+                ok = False
+                detail = f"block in greenlet_upblks={member}: vertices {rec['verts']}, mapping {rec['map']}"
     (r.ok if ok else r.bad)(m, FN, 'every block stays a vertex (wrapped or as is) and the mapping records the wrapper',
-                            *([] if ok else ["vertices and the constraint remapping use different mappings", f.lineno]))
+                            *([] if ok else ["vertices and the constraint remapping use different mappings: " + detail, f.lineno]))
     pub = {norm(s.targets[0]): norm(s.value) for s in f.body if isinstance(s, ast.Assign)}
     ok = pub.get('top._dag.final_upblks') == 'new_upblks' and pub.get('top._dag.all_constraints') == 'new_constraints'
     (r.ok if ok else r.bad)(m, FN, 'final_upblks / all_constraints replaced together',
@@ -973,6 +1020,11 @@ MUTANTS = [
 ]
 
 EQUIV = [
+    _m('explicit-edge-helper', GENDAG, "              if sign == 1: # RD/WR(x) < U is 1, RD/WR(x) > U is -1\n                # eq_blk == RD/WR(x) < co_blk\n                U_U.add( (eq_blk, co_blk) )\n                constraint_objs[ (eq_blk, co_blk) ].add( obj )\n              else:\n                # co_blk < RD/WR(x) == eq_blk\n                U_U.add( (co_blk, eq_blk) )\n                constraint_objs[ (co_blk, eq_blk) ].add( obj )",
+       "              if sign == 1:\n                edge = (eq_blk, co_blk)\n              else:\n                edge = (co_blk, eq_blk)\n              U_U.add( edge )\n              constraint_objs[ edge ].add( obj )"),
+    _m('greenlet-vertex-branches-flipped', GREEN, "      if blk in greenlet_upblks:\n        wrapped = wrap_greenlet( blk )\n        blk_greenlet_mapping[ blk ] = wrapped\n        new_upblks.add( wrapped )\n      else:\n        new_upblks.add( blk )",
+       "      if blk not in greenlet_upblks:\n        new_upblks.add( blk )\n      else:\n        wrapped = wrap_greenlet( blk )\n        blk_greenlet_mapping[ blk ] = wrapped\n        new_upblks.add( wrapped )"),
+    _m('heu-vertex-alias', HEU, "      update_schedule.append( id_v[u] )\n      for v in Es[id_v[u]]:", "      u_blk = id_v[u]\n      update_schedule.append( u_blk )\n      for v in Es[u_blk]:"),
     _m('cache-vars-form', L2, "    if '_name_info' in cls.__dict__:", "    if '_name_info' in vars(cls):"),
     _m('overlap-symmetric-form', CONN, "      if x.start <= y.start:  return y.start < x.stop\n      else:                   return x.start < y.stop", "      return x.start < y.stop and y.start < x.stop"),
     _m('overlap-int-as-pair', CONN, "    if isinstance( y, int ):  return x == y", "    if isinstance( y, int ):  return not (x != y)"),
